@@ -1027,6 +1027,92 @@ impl LongTermCredentialClient {
                     old(self).params is Some && p == (LongTermCredentialAttributes { nonce: p.nonce, ..old(self).params->Some_0 }))
         },
 //@end
+//@item stun_agent :: mod lt_cred_mech > impl LongTermCredentialClient > fn new
+//@tags C08
+//@sig
+pub fn new(user_name: UserName, password: String, is_reliable: bool) -> (r: Self)
+//@sub "password: password.into()," => "password,"
+//@spec
+    ensures r.user_name == user_name, r.password == password, r.params is None, r.state is FirstRequest, r.wf(),
+        r.validator.is_reliable == is_reliable, r.violated() == Set::<TransactionId>::empty(),
+//@end
+//@item stun_agent :: mod lt_cred_mech > impl LongTermCredentialClient > fn recv_message
+//@tags C08 C17 C03
+//@spec
+    requires old(self).wf(),
+    ensures final(self).same_ident(old(self)), final(self).wf(),
+        // requests and indications are refused
+        (msg.sclass() is Request || msg.sclass() is Indication) ==> r == Err::<(), IntegrityError>(IntegrityError::Discarded) && *final(self) == *old(self),
+        // C17
+        (r is Err && !(r->Err_0 is Retry)) ==> final(self).params == old(self).params && final(self).state == old(self).state,
+        (r is Err && r->Err_0 is Discarded) ==> (final(self).violated() == old(self).violated()
+            || (!(msg.sclass() is Indication) && final(self).violated() == old(self).violated().insert(msg.sid()))),
+        // C08: responses are delivered only if they verify under the derived key
+        r is Ok ==> old(self).params is Some && final(self).params == old(self).params
+            && final(self).state is SubsequentRequest && lt_verified(old(self).params->Some_0, msg, raw_buffer@),
+        (r is Err && r->Err_0 is Retry) ==> msg.sclass() is ErrorResponse && final(self).params is Some && final(self).state is Retry
+            && from_msg(msg.attrs(), StunAttribute::Nonce(final(self).params->Some_0.nonce)),
+//@end
+}
+
+// ---------------------------------------------------------------- client.rs: the mechanism as the client sees it
+pub ghost struct StView { pub user_name: UserName, pub key: HMACKey, pub integrity: Option<Integrity> }
+pub ghost struct LtView { pub user_name: UserName, pub password: Seq<char>, pub params: Option<LongTermCredentialAttributes>, pub state: LongTermCredentialState }
+pub ghost enum MechState { St(StView), Lt(LtView) }
+//@item! stun_agent :: mod client > enum CredentialMechanismClient
+impl CredentialMechanismClient {
+    // everything but the protection-violated markers
+    pub open spec fn st(&self) -> MechState {
+        match self {
+            CredentialMechanismClient::ShortTerm(m) => MechState::St(StView { user_name: m.user_name, key: m.key, integrity: m.integrity }),
+            CredentialMechanismClient::LongTerm(m) => MechState::Lt(LtView { user_name: m.user_name, password: m.password@, params: m.params, state: m.state }),
+        }
+    }
+    pub open spec fn violated(&self) -> Set<TransactionId> {
+        match self {
+            CredentialMechanismClient::ShortTerm(m) => m.violated(),
+            CredentialMechanismClient::LongTerm(m) => m.violated(),
+        }
+    }
+    pub open spec fn wf(&self) -> bool {
+        match self { CredentialMechanismClient::ShortTerm(m) => true, CredentialMechanismClient::LongTerm(m) => m.wf() }
+    }
+//@item stun_agent :: mod client > impl CredentialMechanismClient > fn recv_message
+//@tags C17 C07 C08 C05
+//@spec
+    requires old(self).wf(),
+    ensures final(self).wf(),
+            // a message that is to be ignored changes nothing but, for a response on unreliable transport, the marker
+            (r is Err && r->Err_0 is Discarded) ==> final(self).st() == old(self).st()
+                && (final(self).violated() == old(self).violated()
+                    || (message.sclass() != MessageClass::Indication
+                        && final(self).violated() == old(self).violated().insert(message.sid()))),
+//@end
+//@item stun_agent :: mod client > impl CredentialMechanismClient > fn signal_protection_violated_on_timeout
+//@tags C17 C07 C05
+//@spec
+    requires old(self).wf(),
+    ensures final(self).wf(),
+            r == old(self).violated().contains(*transaction_id),
+            final(self).violated() == old(self).violated().remove(*transaction_id),
+            final(self).st() == old(self).st(),
+//@end
+//@item stun_agent :: mod client > impl CredentialMechanismClient > fn prepare_request
+//@tags C13 C07 C08
+//@spec
+    requires old(self).wf(), old(attributes).wf(),
+    ensures final(self).wf(), final(attributes).wf(),
+            final(self).violated() == old(self).violated(),
+            r is Err ==> !(r->Err_0 is MaxOutstandingRequestsReached),
+//@end
+//@item stun_agent :: mod client > impl CredentialMechanismClient > fn prepare_indication
+//@tags C13 C07 C08
+//@spec
+    requires old(self).wf(), old(attributes).wf(),
+    ensures final(self).wf(), final(attributes).wf(),
+            final(self).violated() == old(self).violated(),
+            r is Err ==> !(r->Err_0 is MaxOutstandingRequestsReached),
+//@end
 }
 proof fn vx_sentinel() ensures false {}
 } // verus!
